@@ -9,6 +9,7 @@ import Jrpc.Oracle.C06
 import Jrpc.Oracle.C09
 import Jrpc.Oracle.C04
 import Jrpc.Oracle.C15
+import Jrpc.Oracle.C18
 /-! The model oracle: one line in, one line out. First token selects the sub-command. -/
 open Jrpc.Oracle
 
@@ -31,6 +32,10 @@ def dispatch (line : String) : String :=
   | "c15w" :: r => C15.handleWrap r
   | "c16p" :: r => C15.handlePositional r
   | "c16a" :: r => C15.handleArgs r
+  | "c19q" :: r => C18.handleQuery r
+  | "c19c" :: r => C18.handleChan r
+  | "c18" :: r => C18.handleBridge r
+  | "c20" :: r => C18.handleLoop r
   | _ => "bad-op"
 
 partial def loop (h : IO.FS.Stream) (out : IO.FS.Stream) : IO Unit := do
